@@ -26,18 +26,31 @@ struct Seen {
     display: String,
     eq_expected: bool,
     eq_raw: Option<bool>,
+    /// == with strings that merely start with / are a prefix of / case-differ from the canonical text (must all be false)
+    eq_other: bool,
     into_str: Option<String>,
     is_empty: Option<bool>,
 }
 
 fn observe(kind: SubtagKind, b: &[u8], expected: &str) -> Result<Option<Seen>, String> {
     let raw = std::str::from_utf8(b).ok();
+    // strings that are NOT the canonical text but share a long prefix / differ only in case or length
+    let mut others: Vec<String> = vec![format!("{}1", expected), format!("{}a", expected), format!("{}-{}", expected, expected), format!("{}\0", expected)];
+    if expected.len() > 1 {
+        others.push(expected[..expected.len() - 1].to_string());
+    }
+    for alt in [expected.to_ascii_uppercase(), expected.to_ascii_lowercase()] {
+        if alt != expected {
+            others.push(alt);
+        }
+    }
     guard(|| match kind {
         SubtagKind::Language => Language::from_bytes(b).ok().map(|t| Seen {
             as_str: t.as_str().to_string(),
             display: t.to_string(),
             eq_expected: t == expected,
             eq_raw: raw.map(|r| t == r),
+            eq_other: others.iter().any(|o| t == o.as_str()),
             into_str: None,
             is_empty: Some(t.is_empty()),
         }),
@@ -46,6 +59,7 @@ fn observe(kind: SubtagKind, b: &[u8], expected: &str) -> Result<Option<Seen>, S
             display: t.to_string(),
             eq_expected: t == expected,
             eq_raw: raw.map(|r| t == r),
+            eq_other: others.iter().any(|o| t == o.as_str()),
             into_str: Some(<&str>::from(&t).to_string()),
             is_empty: None,
         }),
@@ -54,6 +68,7 @@ fn observe(kind: SubtagKind, b: &[u8], expected: &str) -> Result<Option<Seen>, S
             display: t.to_string(),
             eq_expected: t == expected,
             eq_raw: raw.map(|r| t == r),
+            eq_other: others.iter().any(|o| t == o.as_str()),
             into_str: Some(<&str>::from(&t).to_string()),
             is_empty: None,
         }),
@@ -62,6 +77,7 @@ fn observe(kind: SubtagKind, b: &[u8], expected: &str) -> Result<Option<Seen>, S
             display: t.to_string(),
             eq_expected: t == expected && t == *expected,
             eq_raw: raw.map(|r| t == r && t == *r),
+            eq_other: others.iter().any(|o| t == o.as_str() || t == *o.as_str()),
             into_str: None,
             is_empty: None,
         }),
@@ -101,6 +117,9 @@ pub fn c15_check_kind(kind: SubtagKind, b: &[u8]) -> Vec<Fail> {
             }
             if !s.eq_expected {
                 out.push(fail(format!("{}:eq-str", kn), format!("subtag != its canonical text {:?}", e)));
+            }
+            if s.eq_other {
+                out.push(fail(format!("{}:eq-str", kn), format!("subtag with canonical text {:?} compares equal to a different string (a longer / shorter / differently cased one)", e)));
             }
             if let Some(r) = s.eq_raw {
                 let raw = std::str::from_utf8(b).unwrap();
